@@ -32,6 +32,7 @@ WHAT = {
  'beyond the regex engine': ("C04", "re.Pattern loader: 'a{4294967296}' -> OverflowError escaped (probe; same exception edge class as K-exc)"),
  'bare constructors': ("C04", "UUID / IPv4Address / IPv6Address / IPv4Network / IPv4Interface / Path loaders were the raw constructors: ValueError, AddressValueError, NetmaskValueError, TypeError, AttributeError escaped (l1_UUID_strict_sel tag=5 ...)"),
  'constructor-filled optional field': ("C08", "attrs model a, t=Factory(takes_self=True), z=7: load({'a': 1, 'z': 5}) -> M(a=1, t=5, z=7); with t present -> TypeError (takes_self_factory, all presence patterns)"),
+ 'Literal loader leaked TypeError': ("C04", "Literal with more than 4 cases (set branch): unhashable datum [0.0] -> TypeError escaped (literal_big_int kind=1)"),
 }
 WHAT.update(json.load(open('/verif/tools/fixed_extra.json')) if __import__('os').path.exists('/verif/tools/fixed_extra.json') else {})
 log = subprocess.run(["git", "-C", "/repo", "log", "--format=%h %s"], capture_output=True, text=True).stdout.splitlines()
